@@ -1440,6 +1440,21 @@ NiShape* NifFile::CloneShape(NiShape* srcShape, const std::string& destShapeName
 				destBoneCont->boneRefs.AddBlockRef(boneID);
 		}
 	}
+
+	// Skeleton root of the skin instance: the source's root node becomes the destination's root node
+	if (rootNode && srcRootNode) {
+		uint32_t srcRootId = srcNif->GetBlockID(srcRootNode);
+		uint32_t destRootId = GetBlockID(rootNode);
+
+		auto destSkinInst = hdr.GetBlock<NiSkinInstance>(destShape->SkinInstanceRef());
+		if (destSkinInst && destSkinInst->targetRef.index == srcRootId)
+			destSkinInst->targetRef.index = destRootId;
+
+		auto destBSSkinInst = hdr.GetBlock<BSSkinInstance>(destShape->SkinInstanceRef());
+		if (destBSSkinInst && destBSSkinInst->targetRef.index == srcRootId)
+			destBSSkinInst->targetRef.index = destRootId;
+	}
+
 	return destShape;
 }
 
